@@ -579,6 +579,22 @@ func (b *BaseStore) Load(ctx context.Context, amount int) error {
 				return
 			}
 
+			// the fetcher swallows cancellation and fetch errors: when the context
+			// has ended, or the requested head did not come back, the load has
+			// failed (reporting success over a truncated or empty log lets the
+			// caller go on as if its data were there)
+			if ctxErr := ctx.Err(); ctxErr != nil {
+				span.AddEvent("store-head-loading-error")
+				err = fmt.Errorf("unable to load head %s: %w", h.GetHash().String(), ctxErr)
+				return
+			}
+
+			if _, ok := l.Get(h.GetHash()); !ok {
+				span.AddEvent("store-head-loading-error")
+				err = fmt.Errorf("unable to fetch head %s", h.GetHash().String())
+				return
+			}
+
 			// an entry written for another log must never be handed to Join, which
 			// would merge it as a head without verifying it (the replicator drops
 			// such entries the same way): only the entries of this log are joined.
